@@ -21,10 +21,12 @@ CHECKS = {
    text="Machine-checked proof (Coq 8.16.1) about a Gallina model of Filter.update/reset written line by line "
         "(key diff incl. removed keys, feat2filter with force, ValueError pre-check, per-feature box cache with "
         "NaN branch and bound swap, polygon cache pruning and hash invalidation, invalid mask, enable switch, "
-        "limit events through a choice oracle, manual edits, reset): for every dataset and every history of "
+        "limit events through a choice oracle, manual edits, reset, temporary features appearing/disappearing): for every dataset and every history of "
         "operations, a non-raising application leaves .all/.box/.polygon/.invalid equal to a stateless "
         "specification of the current settings (cache invariant by induction over the history); exact count and "
-        "subset theorems for the event limit; selection depends on the settings only. Tied to the code on every "
+        "subset theorems for the event limit; selection depends on the settings only; the three repaired defects are "
+        "refuted for the old code by witnesses; thorough tier: exhaustive sweep of all 54 240 op sequences of length "
+        "<= 4 over a 15-letter alphabet. Tied to the code on every "
         "run by vm_compute correspondence on random histories and a stateless Python reference oracle.",
    note="Trusted: Coq kernel+vm_compute; hand-written model tied by differential testing; seeded numpy choice "
         "(oracle: distinct, in range, right count, deterministic - checked on every run); point-in-polygon taken "
@@ -37,7 +39,8 @@ CHECKS = {
         "reuse, basin sorting and the lookup passes of __getitem__, map_indices_child2root, the basins branch of "
         "Export.hdf5): all access routes equal origin[basinmap][index]; the map written by an export composes the "
         "filters for chains of any depth (induction); allocation is sound and complete; innate features win; the "
-        "full nested lookup returns the origin's data at the file's origin events. Tied to the code by vm_compute "
+        "full nested lookup returns the origin's data at the file's origin events; export maps a consistent store to a "
+        "consistent store; rtdc_copy/compress/repack keep every lookup. Tied to the code by vm_compute "
         "correspondence on random pipelines of up to 6 files (mapped/unmapped/internal basins, export chains from "
         "files and hierarchy children, moved directories, all access patterns and feature kinds).",
    note="Trusted: Coq kernel+vm_compute; hand-written model tied by differential testing; HDF5/h5py storage, path "
@@ -75,7 +78,9 @@ CHECKS = {
         "indices, the four mapper functions, set_temporary_feature, ChildScalar snapshots, box ranges with cache): "
         "after rejuvenate every child is the parent's view (lengths and columns) at any depth; manual exclusions "
         "persist for the same root events across arbitrary ancestor edits incl. hidden-and-back; non-scalar view; "
-        "mapper inverses and composition. Tied by vm_compute correspondence and a root-index-set oracle.",
+        "mapper inverses and composition; every member's events are exactly the root events selected by all ancestor "
+        "masks (no duplicates); sibling children sharing ancestors in any alternation. Tied by vm_compute "
+        "correspondence and a root-index-set oracle.",
    note="Trusted: Coq kernel+vm_compute; model tied by differential testing; md5 as equality of the hashed content; "
         "polygon filters/limit events are C03's; mask/contour/trace/computed features oracle only; re-included events "
         "are don't-care (documented all-True quirk).",
@@ -233,7 +238,8 @@ CHECKS = {
         "outside rule, both computation routes, numpy broadcasting of per-event viscosities: each route equals the "
         "small specification (scaled piecewise-linear interpolation) relative to an ARBITRARY triangulation function; "
         "routes agree; per-event independence and permutation equivariance; proportionality to viscosity and flow "
-        "rate; joint geometric rescale invariance (proved also for the real pixelation formula); NaN iff in no "
+        "rate on both routes; joint geometric rescale invariance (proved also for the real pixelation formula); "
+        "registered and built-in LUTs are never modified by any sequence of calls (load.py model); NaN iff in no "
         "triangle; node values, min/max bounds, shared edges. PARTIAL: qhull's triangulation, exp, the viscosity "
         "models and rounding are oracles; the harness hands scipy's simplices and math.exp values to the model.",
    note="Trusted: Coq kernel+vm_compute (Lqa/lra over Q, no Reals); qhull Delaunay (oracle; tiling, non-degeneracy and "
